@@ -129,11 +129,11 @@ def audit(prop, module, extra_allowed=()):
     # output: "'name' depends on axioms: [a, b]" possibly wrapped, or "'name' does not depend on any axioms"
     text = re.sub(r"\n\s+", " ", out)
     for l in text.splitlines():
-        m = re.match(r"'([^']+)' depends on axioms: \[(.*)\]", l)
+        m = re.match(r"'(.+)' depends on axioms: \[(.*)\]", l)
         if m:
             axioms[m.group(1)] = [a.strip() for a in m.group(2).split(",") if a.strip()]
             continue
-        m = re.match(r"'([^']+)' does not depend on any axioms", l)
+        m = re.match(r"'(.+)' does not depend on any axioms", l)
         if m:
             axioms[m.group(1)] = []
     allowed = ALLOWED_AXIOMS | set(extra_allowed)
